@@ -574,7 +574,9 @@ def fam_scaled(T=3, thorough=False):
     # (window of the base asset, own window of the scaled asset): equal, wrapper narrower, base narrower, wrapper reaching beyond the horizon
     wins = [((1, T + 1), (1, T + 1)), ((2, T + 1), (2, T + 1)), ((1, T + 1), (2, T)), ((2, T + 1), (1, T + 1)), ((1, T + 1), (-1, T + 3)),
             # the wrapper's window straddling the start / the end of the horizon
-            ((1, T + 1), (-1, 3)), ((1, T + 1), (2, T + 3))]
+            ((1, T + 1), (-1, 3)), ((1, T + 1), (2, T + 3)),
+            # base asset and wrapper wholly outside the horizon (after / before it): inert, at any admissible scale
+            ((T + 2, T + 4), (T + 2, T + 4)), ((-3, 0), (-3, 0))]
     for (s, norm, fix), (win, fwin) in itertools.product([(1, 1, 0), (2, 1, 1), (3, 2, 2), (1, 2, 1)], wins):
         if fix == 0 and fwin != win:
             continue
